@@ -175,7 +175,7 @@ Proof.
   unfold timeit_enter, timeit_exit. intros a s s1 sv H.
   match type of H with context [is_none ?x] => destruct (is_none x) eqn:E end;
     simpl in H; inversion H; subst; clear H.
-  - simpl. unfold tl_del, tl_set. rewrite st_set_set. apply nrm_set_equiv. apply nrm_none_get; auto.
+  - simpl. rewrite ?E. unfold tl_del, tl_set. rewrite st_set_set. apply nrm_set_equiv. apply nrm_none_get; auto.
   - rewrite E. unfold tl_set. rewrite st_set_set. rewrite <- (get_not_none _ _ E). rewrite st_set_get_id. apply seq_at_refl.
 Qed.
 
